@@ -162,7 +162,7 @@ Definition has_rows (r : vrec) : bool := match r_samples r with [] => false | _ 
 
 (* bcf::io::Writer::write_variant_record on a RecordBuf *)
 Definition bcf_write (strings contigs : smap) (h : hctx) (rlen : Z) (r : vrec) : res (list N) :=
-  enc_record strings contigs (site_of h rlen r) (info_fields r) (fmt_fields h r) (has_rows r).
+  enc_record_w strings contigs (site_of h rlen r) (info_fields r) (fmt_fields h r) (has_rows r).
 
 (* ------------------------------------------------------------------ the reader *)
 Definition on (o : option Z) : option N := option_map Z.to_N o.
@@ -213,14 +213,64 @@ Definition bcf_read (strings contigs : smap) (h : hctx) (bs : list N) : rres vre
   rbind (dec_record_typed strings contigs (ik_of h) (fk_of h) (Z.of_nat (h_nsamples h)) bs)
         (fun t => ROk (vrec_of t)).
 
+(* ------------------------------------------------------------------ a REUSED RecordBuf *)
+(* read_record_buf(header, &mut record) on a RecordBuf that still holds the previous record [prev]
+   (also the record_bufs() iterator).  decoder.rs read_site ASSIGNS the reference sequence name, the
+   position, the quality score, the IDs, REF, ALT and the FILTERs (`*record.x_mut() = ...`);
+   decoder/info.rs read_info works on the buffer's own Info map: `info.clear()`, then one
+   `info.insert(key, value)` per field, a key that is already in the map being DuplicateKey;
+   io/reader/record_buf.rs assigns the samples.  The buffer is threaded through in that order. *)
+Fixpoint has_name (k : name) (m : list (name * option value)) : bool :=
+  match m with [] => false | (k', _) :: t => name_eqb k k' || has_name k t end.
+
+Fixpoint insert_fields (m fs : list (name * option value)) : option (list (name * option value)) :=
+  match fs with
+  | [] => Some m
+  | (k, v) :: t => if has_name k m then None else insert_fields (m ++ [(k, v)]) t
+  end.
+
+(* info.clear() *)
+Definition clear_info (m : list (name * option value)) : list (name * option value) := [].
+
+Definition fill_into (prev : vrec) (t : trecord) : option vrec :=
+  let n := vrec_of t in
+  let b1 := {| r_chrom := r_chrom n; r_pos := r_pos prev; r_ids := r_ids prev; r_ref := r_ref prev;
+               r_alts := r_alts prev; r_qual := r_qual prev; r_filters := r_filters prev;
+               r_info := r_info prev; r_keys := r_keys prev; r_samples := r_samples prev |} in
+  let b2 := {| r_chrom := r_chrom b1; r_pos := r_pos n; r_ids := r_ids b1; r_ref := r_ref b1;
+               r_alts := r_alts b1; r_qual := r_qual n; r_filters := r_filters b1;
+               r_info := r_info b1; r_keys := r_keys b1; r_samples := r_samples b1 |} in
+  let b3 := {| r_chrom := r_chrom b2; r_pos := r_pos b2; r_ids := r_ids n; r_ref := r_ref n;
+               r_alts := r_alts n; r_qual := r_qual b2; r_filters := r_filters n;
+               r_info := r_info b2; r_keys := r_keys b2; r_samples := r_samples b2 |} in
+  match insert_fields (clear_info (r_info b3)) (r_info n) with
+  | None => None
+  | Some info =>
+    Some {| r_chrom := r_chrom b3; r_pos := r_pos b3; r_ids := r_ids b3; r_ref := r_ref b3;
+            r_alts := r_alts b3; r_qual := r_qual b3; r_filters := r_filters b3;
+            r_info := info; r_keys := r_keys n; r_samples := r_samples n |}
+  end.
+
+Definition bcf_read_into (prev : vrec) (strings contigs : smap) (h : hctx) (bs : list N) : rres vrec :=
+  rbind (dec_record_typed strings contigs (ik_of h) (fk_of h) (Z.of_nat (h_nsamples h)) bs)
+        (fun t => match fill_into prev t with Some r => ROk r | None => RErr end).
+
 (* ------------------------------------------------------------------ the class string-special-chars *)
-(* BCF stores Character / String values raw: a String that is empty IS the missing value; vectors
-   are joined with ',' and use "." for a missing element; per-sample cells are NUL padded and "." is
-   the missing sample. *)
-Definition elt_special (t : list N) : bool :=
-  match t with [] => true | _ => false end || bytes_eqb t [Strings.dot]
-  || existsb (N.eqb comma) t || existsb (N.eqb nul) t.
+(* BCF stores Character / String values raw: an INFO String that is empty IS the missing value;
+   vectors are joined with ',' and use "." for a missing element (so the INFO vector [""] is the
+   missing value as well); per-sample values live in NUL padded cells where "." is the missing
+   sample.  The class is EXACT: outside it every value is read back as itself
+   (c10_bcf_vcf_agree), and no byte string at all is read back as a member of it
+   (c10_special_unrepresentable). *)
+Definition has_byte (b : N) (t : list N) : bool := existsb (N.eqb b) t.
+
+(* INFO vector elements *)
+Definition chr_special_i (c : N) : bool := N.eqb c Strings.dot || N.eqb c comma.
+Definition elt_special_i (t : list N) : bool := bytes_eqb t [Strings.dot] || has_byte comma t.
+(* per-sample vector elements *)
 Definition chr_special (c : N) : bool := N.eqb c Strings.dot || N.eqb c comma || N.eqb c nul.
+Definition elt_special (t : list N) : bool :=
+  bytes_eqb t [Strings.dot] || has_byte comma t || has_byte nul t.
 
 Definition any_some {A} (f : A -> bool) (l : list (option A)) : bool :=
   existsb (fun o => match o with Some a => f a | None => false end) l.
@@ -229,8 +279,8 @@ Definition any_some {A} (f : A -> bool) (l : list (option A)) : bool :=
 Definition info_special (v : value) : bool :=
   match v with
   | VString s => match s with [] => true | _ => false end
-  | VCharArr l => any_some chr_special l
-  | VStrArr l => any_some elt_special l
+  | VCharArr l => any_some chr_special_i l
+  | VStrArr l => match l with [Some []] => true | _ => false end || any_some elt_special_i l
   | _ => false
   end.
 
@@ -238,7 +288,7 @@ Definition info_special (v : value) : bool :=
 Definition fmt_special (v : value) : bool :=
   match v with
   | VCharacter c => N.eqb c Strings.dot || N.eqb c nul
-  | VString s => bytes_eqb s [Strings.dot] || existsb (N.eqb nul) s
+  | VString s => bytes_eqb s [Strings.dot] || has_byte nul s
   | VCharArr l => any_some chr_special l
   | VStrArr l => any_some elt_special l
   | _ => false
